@@ -26,6 +26,12 @@ def plan(tier):
         return label.startswith(("M.", "P.", "D."))
 
     pl.label_filter = lf
+
+    def bounded_auth(tier, seed):
+        from bounded import auth_bounded as ab
+        return ab.bounded_auth(PID, tier, seed)
+
+    pl.bounded = [bounded_auth]
     pl.functions = [("sievelib.managesieve", "Client.__authenticate"), ("sievelib.managesieve", "Client.get_sasl_mechanisms"),
                     ("sievelib.managesieve", "Client._plain_authentication"),
                     ("sievelib.managesieve", "Client._login_authentication"),
@@ -42,5 +48,10 @@ def plan(tier):
         "methods replaced by recording contracts, for authmech absent / each implemented name / any other string: at "
         "most one method invoked, exactly the one the property names, with the caller's UTF-8 encoded credentials, "
         "nothing invoked when none qualifies or SASL is not announced, authenticated set only on True. Payloads: PLAIN, "
-        "LOGIN and OAUTHBEARER messages as sequence equalities over an abstract base64 (RFC 4616 / RFC 7628 layouts).")
+        "LOGIN and OAUTHBEARER messages as sequence equalities over an abstract base64 (RFC 4616 / RFC 7628 layouts, the "
+        "OAUTHBEARER authorisation identity as an RFC 5801 saslname). Bounded (labelled bounded, exhaustive over the pools): the "
+        "real connect() against a strict SASL reference server -- 16 announced sets (look-alike names, unknown ones, none, no "
+        "SASL line) x 7 preferences x {OK, NO}, and PLAIN / LOGIN / OAUTHBEARER x credential pools (non-ASCII, comma, equals, "
+        "quote, backslash, escape look-alikes, base64 outputs with + and /): mechanism asked for, strictly decoded "
+        "credentials, verdict, nothing left unread.")
     return pl
